@@ -253,6 +253,32 @@ func nilable(t types.Type) bool {
 }
 
 // checkResults is the oracle for one function.
+// constantFits: can a constant of this kind be a value of the declared result type at all (kind against the type's underlying
+// basic kind; interfaces and type parameters take any constant; ranges are not checked)
+func constantFits(v constant.Value, want types.Type) bool {
+	u := want.Underlying()
+	if _, ok := u.(*types.Interface); ok {
+		return true
+	}
+	b, ok := u.(*types.Basic)
+	if !ok {
+		return false
+	}
+	switch v.Kind() {
+	case constant.Bool:
+		return b.Info()&types.IsBoolean != 0
+	case constant.String:
+		return b.Info()&types.IsString != 0
+	case constant.Int:
+		return b.Info()&types.IsNumeric != 0
+	case constant.Float:
+		return b.Info()&(types.IsFloat|types.IsComplex) != 0 || (b.Info()&types.IsInteger != 0 && constant.ToInt(v).Kind() == constant.Int)
+	case constant.Complex:
+		return b.Info()&types.IsComplex != 0 || (b.Info()&types.IsNumeric != 0 && constant.ToFloat(v).Kind() == constant.Float)
+	}
+	return true
+}
+
 func checkResults(p gengotypes.Package, fn *types.Func, literal [][]c14Exp) (alts int, hasBody bool, err error) {
 	sig := fn.Type().(*types.Signature)
 	declared := sig.Results()
@@ -279,6 +305,9 @@ func checkResults(p gengotypes.Package, fn *types.Func, literal [][]c14Exp) (alt
 			if r.Value != nil {
 				if r.Value.Kind() == constant.Unknown {
 					return alts, hasBody, fmt.Errorf("result %d: alternative has an unknown constant value: %s", i, results)
+				}
+				if !constantFits(r.Value, want) {
+					return alts, hasBody, fmt.Errorf("result %d (declared %s): the constant alternative %s cannot be a value of that type: %s", i, want, r.Value, results)
 				}
 				continue
 			}
